@@ -14,7 +14,9 @@
 // is emitted only while the history since `reset` satisfies C16.HGuarded (ring additions on a free address,
 // refreshes with pairwise distinct accepted ids and addresses), `covered` only while it satisfies
 // C16.RemGuarded (ring operations only; every removal harmless); otherwise the same observations are
-// emitted as `chk` / `chkcov` (model vs code only). The guards are evaluated on a shadow of the INTENDED
+// emitted as `chk` / `chkcov` (model vs code only). `nostale <n>` (no by-address entry of the addresses 0..n is
+// stale: getHostByIP never answers "known address" with nil or a host of another address) is spec-backed after
+// EVERY history (C16.C16_stale_nil). The guards are evaluated on a shadow of the INTENDED
 // state kept by the generator, not on the ring under test.
 package main
 
@@ -249,6 +251,23 @@ func (w *world) uncovered() []int {
 	return bad
 }
 
+// stale: the addresses 0..n for which getHostByIP answers "known" with something else than a host of the
+// ring with that address
+func (w *world) stale(n int) []int {
+	in := map[*gocql.HostInfo]bool{}
+	for _, h := range w.ring.AllHosts() {
+		in[h] = true
+	}
+	var bad []int
+	for a := 0; a <= n; a++ {
+		h, ok := w.ring.GetHostByIP(ipStr(a))
+		if ok && (h == nil || !in[h] || w.at[w.num[h]].addr != a) {
+			bad = append(bad, a)
+		}
+	}
+	return bad
+}
+
 func objsOr(pfx string, l []int) string {
 	if len(l) == 0 {
 		return "ok"
@@ -326,6 +345,8 @@ func (w *world) exec(op string) (res string) {
 		return w.refresh(fl, natList(f[2]))
 	case "consistent", "chk":
 		return objsOr("notfound:", w.notFound())
+	case "nostale":
+		return objsOr("stale:", w.stale(atoi(f[1])))
 	case "covered", "chkcov":
 		return objsOr("uncovered:", w.uncovered())
 	}
@@ -638,6 +659,9 @@ func main() {
 			}
 			refresh(filtered, rep, "refresh/"+cls)
 			observe()
+			if r.Intn(2) == 0 {
+				emit(fmt.Sprintf("nostale %d", nAddr+1), "nostale/spec-backed(all histories)", true)
+			}
 			for k := r.Intn(4); k > 0; k-- {
 				byip(r.Intn(nAddr + 2))
 			}
@@ -691,12 +715,14 @@ func main() {
 				emit(fmt.Sprintf("get %d", r.Intn(nIDs+2)), "getHost", true)
 			case x < 72:
 				byip(r.Intn(nAddr + 2))
-			case x < 76:
+			case x < 75:
 				emit("all", "allHosts", true)
-			case x < 86:
+			case x < 83:
 				observe()
-			case x < 96:
+			case x < 90:
 				observeCov()
+			case x < 96:
+				emit(fmt.Sprintf("nostale %d", nAddr+1), "nostale/spec-backed(all histories)", true)
 			default:
 				if withRefresh && len(valid) > 0 { // an arbitrary report over the existing objects (often not a good one)
 					var rep []int
@@ -720,6 +746,7 @@ func main() {
 		}
 		observe()
 		observeCov()
+		emit(fmt.Sprintf("nostale %d", nAddr+1), "nostale/spec-backed(all histories)", true)
 	}
 
 	for i := 0; i < scen; i++ {
